@@ -10,7 +10,7 @@ import ast
 
 from ..astutil import call_simple_name, short
 from ..cfg import ReachingDefs, cfg_of
-from ..loader import FunctionInfo, body_walk, norm
+from ..loader import AnalysisError, FunctionInfo, body_walk, norm
 from ..report import key
 
 # an explicit iter(xs) stepped with next() is deliberate iterator handling and is not judged
@@ -372,4 +372,39 @@ def rule_no_alias_then_mutate(ctx, rule_id, module_prefixes):
                           "the argument's object too -- an expression used as an operand is silently modified" % (
                               t_, short(a_.value, 40), short(m_, 50)), file=fi.module.relpath, line=m_.lineno, function=fi.qualname,
                           expected="%s = set(...) / list(...) copy before updating" % t_, found=short(a_, 80))
+    return n
+
+
+def rule_loops_not_cut_short(ctx, rule_id):
+    """A `for` / `while` whose body ENDS in an unconditional break or return runs at most once: only the first element is
+    validated / matched / added.  Every property quantifies over all elements of its inputs (every reference of a list, every
+    selector of a marking, every element of a list-valued property a filter is matched against, every marking of a list to
+    add), and the package has no such loop; one that appears in the modules the property is anchored in is reported.  (A
+    conditional early exit is judged by the property's own path rules, not here.)"""
+    from .hidden_state import anchor_modules
+    run = ctx.run
+    prog = ctx.prog
+    prop = rule_id.split(".")[0]
+    mods = anchor_modules(ctx, prop)
+    if not mods:
+        raise AnalysisError("loops-complete: no anchored module found for %s" % prop)
+    n = 0
+    for m in mods:
+        for fi in sorted((f for f in prog.functions.values() if f.module is m), key=lambda f: f.id):
+            k_ = 0
+            for lp in body_walk(fi.node):
+                if not isinstance(lp, (ast.For, ast.While)):
+                    continue
+                n += 1
+                if lp.body and isinstance(lp.body[-1], (ast.Break, ast.Return)) and not any(
+                        isinstance(x, ast.Continue) for st_ in lp.body for x in ast.walk(st_)):
+                    k_ += 1
+                    run.violation(rule_id, key(fi.module.relpath, fi.qualname, "loop-runs-at-most-once#%d" % k_),
+                                  "the loop body ends in an unconditional %s: only the first element is processed, the rest of %s is "
+                                  "never looked at" % ("break" if isinstance(lp.body[-1], ast.Break) else "return",
+                                                       short(lp.iter, 50) if isinstance(lp, ast.For) else "the iteration"),
+                                  file=fi.module.relpath, line=lp.lineno, function=fi.qualname,
+                                  expected="the loop ranges over every element", found=short(lp, 90))
+        run.ok(rule_id, key(m.relpath, "<module>", "loops-examined"))
+    run.extra["loops_examined"] = n
     return n
